@@ -469,6 +469,7 @@ CallBi(P, m, name, args) ==
                    IF r[1] THEN Ret1(m, Str(r[2])) ELSE Unspec(m, "table.concat: element is not a string or a definite number")
     [] name = "debug.profilebegin" \/ name = "debug.profileend" ->
          IF m.cfg.profile = "noop" THEN RetV(m, <<>>)
+         ELSE IF name = "debug.profilebegin" /\ a1.t \notin {"str", "num"} THEN Err(m, "bad argument #1 to debug.profilebegin (string expected)")
          ELSE IF AnySpecial(m, args) THEN Unspec(m, "global/library table passed to an external function")
          ELSE IF Len(m.log) >= MaxLog THEN [m EXCEPT !.st = "fuel", !.why = "external-call log too long"]
          ELSE RetV([m EXCEPT !.log = Append(m.log, [f |-> name, a |-> RenderAll(m, args)])], <<>>)
